@@ -38,7 +38,7 @@ def setup(ctx):
 
 def gen_cases(tier, seed):
     thorough = tier == "thorough"
-    for g in range(400 if thorough else 40):
+    for g in range(1200 if thorough else 40):
         r = rng(seed, "C17", g)
         texts = []
         for j in range(GROUP):
